@@ -293,6 +293,9 @@ def kstep_sx(st):
             inner = ' '.join('(%s)' % kstep_sx(x) for x in b[1])
             if b[0] == 'c':
                 return '(c (%s) %d %s)' % (inner, b[2], ' '.join(str(x) for x in b[3]))
+            if b[0] == 'cr':
+                # an ordering against a `$` path: ('cr', inner, op, root steps); ('re', root steps) / ('rn', root steps): `$ steps` / `!$ steps`
+                return '(cr (%s) %d (%s))' % (inner, b[2], ' '.join('(%s)' % kstep_sx(x) for x in b[3]))
             if b[0] == 'l':
                 # == / != against a string ('s', quote, body cps), boolean ('b', 0/1, spelling) or null ('n', spelling) literal
                 lv = b[3]
